@@ -460,5 +460,5 @@ def run(ctx):
     from ..rules import sC33
     rules.append(sC33.rule_dict(ctx))
     rules.append(sC33.rule_enc(ctx))
-    # sC33.rule_dict_fields(ctx)   # pending finding (FromPyUnionUtility assigns result.{{member.cname}}, see sa/rules/sC33.py)
+    rules.append(sC33.rule_dict_fields(ctx))    # found FromPyUnionUtility assigning result.{{member.cname}}; repaired in /repo (97c0f17ba)
     return rules
